@@ -269,6 +269,9 @@ pub struct CsvLayout {
     pub dateless_rows: bool,
     /// a rewrite rule with `conversion: {disabled: true}` for payees starting with NOCONV
     pub disable_rule: bool,
+    pub blank_preamble_line: bool,
+    /// `conversion.commodity` overrides whatever the secondary-commodity cell says
+    pub commodity_override: bool,
 }
 
 #[derive(Clone, Debug)]
@@ -338,6 +341,8 @@ impl CsvCase {
             compute: rng.chance(1, 3),
             dateless_rows: rng.chance(1, 4),
             disable_rule: conversion_cols && rng.chance(1, 3),
+            blank_preamble_line: rng.chance(1, 2),
+            commodity_override: conversion_cols && rng.chance(1, 3),
         };
         let mut layout = layout;
         layout.payee_template = layout.category_col && layout.note_col && rng.chance(1, 4);
@@ -449,7 +454,12 @@ impl CsvCase {
         let d = l.delimiter.to_string();
         let mut text = String::new();
         for k in 0..l.skip_head {
-            text.push_str(&format!("Account statement preamble line {}\n", k + 1));
+            // skipped head lines are physical lines: an empty one counts like any other
+            if l.blank_preamble_line && k + 1 == l.skip_head {
+                text.push('\n');
+            } else {
+                text.push_str(&format!("Account statement preamble line {}\n", k + 1));
+            }
         }
         text.push_str(&cols.iter().map(|(_, label)| csv_cell(label)).collect::<Vec<_>>().join(&d));
         text.push('\n');
@@ -493,7 +503,7 @@ impl CsvCase {
                     "balance" => cell_number(r.balance_after, l.scale, if l.num_style == NumStyle::DollarPrefix { NumStyle::Grouped } else { l.num_style }),
                     "rate" => r.conv.as_ref().map(|c| q_text(c.rate)).unwrap_or_default(),
                     "secondary_amount" => r.conv.as_ref().map(|c| cell_number(c.sec_amount, 2, NumStyle::Plain)).unwrap_or_default(),
-                    "secondary_commodity" => r.conv.as_ref().map(|c| c.sec_commodity.clone()).unwrap_or_default(),
+                    "secondary_commodity" => r.conv.as_ref().map(|c| if l.commodity_override { format!("{}.RAW", c.sec_commodity) } else { c.sec_commodity.clone() }).unwrap_or_default(),
                     "charge" => r.charge.map(|c| cell_number(c, l.scale, NumStyle::Plain)).unwrap_or_default(),
                     "note" => r.note.clone(),
                     _ => String::new(),
@@ -519,6 +529,12 @@ impl CsvCase {
                 if l.compute { "compute" } else { "extract" },
                 if l.rate_mode == RateMode::PriceOfSecondary { "price_of_secondary" } else { "price_of_primary" }
             ));
+            if l.commodity_override {
+                // all foreign rows of one file share one secondary commodity
+                if let Some(c) = self.rows.iter().find_map(|r| r.conv.as_ref().map(|c| c.sec_commodity.clone())) {
+                    y.push_str(&format!("    commodity: {}\n", c));
+                }
+            }
         } else {
             y.push_str(&format!("commodity: {}\n", self.primary));
         }
@@ -617,6 +633,45 @@ pub fn determinism_jobs(rng: &mut Rng, dir: &Path) -> Option<(Vec<Job>, String)>
         jobs.push(Job { family: "import-camt-multi-capture-rule", argv: vec!["import".into(), "--config".into(), ccfg.to_string_lossy().into_owned(), csrc.to_string_lossy().into_owned()] });
         desc.push_str(&format!("=== camt config\n{}=== camt xml\n{}", camt.config_yaml, camt.xml));
     }
+    // configurations with several defects at once: which one is reported (and how the message
+    // lists them) must not depend on the order in which a map of fields is visited
+    let csv = "Date,Payee,Category,Note,Amount,Balance\n2021-09-01,Migros,Food,weekly,-10.00,90.00\n2021-09-02,SBB,Travel,ticket,-5.50,84.50\n";
+    let head = "encoding: UTF-8\naccount: Assets:Bank\naccount_type: asset\ncommodity: CHF\nformat:\n  date: \"%Y-%m-%d\"\n  fields:\n";
+    let mut missing: Vec<&str> = vec!["Booking date", "Description", "Details", "Saldo", "Betrag", "Kategorie"];
+    rng.shuffle(&mut missing);
+    let keys = ["date", "payee", "category", "note", "amount", "balance"];
+    let n_missing = 2 + rng.usize(4);
+    let mut fields_missing = String::new();
+    for (i, k) in keys.iter().enumerate() {
+        let label = if i < n_missing { missing[i] } else { ["Date", "Payee", "Category", "Note", "Amount", "Balance"][i] };
+        fields_missing.push_str(&format!("    {}: {}\n", k, yaml_str(label)));
+    }
+    let mut bad_templates: Vec<&str> = vec!["{nope} x", "{bad} y", "{0}", "{category", "{ } z", "{payee.x}"];
+    rng.shuffle(&mut bad_templates);
+    let fields_templates = format!(
+        "    date: 1\n    amount: 5\n    payee:\n      template: {}\n    category:\n      template: {}\n    note:\n      template: {}\n",
+        yaml_str(bad_templates[0]),
+        yaml_str(bad_templates[1]),
+        yaml_str(bad_templates[2])
+    );
+    let fields_ok = "    date: 1\n    payee: 2\n    category: 3\n    note: 4\n    amount: 5\n    balance: 6\n";
+    let bad_rules = "rewrite:\n  - matcher:\n      payee: \"(unclosed\"\n      category: \"[a-\"\n      note: \"*x\"\n    account: Expenses:X\n";
+    for (family, name, cfg_text) in [
+        ("import-csv-several-missing-labels", "defect1", format!("path: defect1.csv\n{}{}", head, fields_missing)),
+        ("import-csv-several-invalid-templates", "defect2", format!("path: defect2.csv\n{}{}", head, fields_templates)),
+        ("import-csv-several-invalid-rule-patterns", "defect3", format!("path: defect3.csv\n{}{}{}", head, fields_ok, bad_rules)),
+    ] {
+        let ddir = dir.join(name);
+        if std::fs::create_dir_all(&ddir).is_err() {
+            continue;
+        }
+        let cfg = ddir.join("config.yml");
+        let src = ddir.join(format!("{}.csv", name));
+        if std::fs::write(&cfg, &cfg_text).is_ok() && std::fs::write(&src, csv).is_ok() {
+            jobs.push(Job { family, argv: vec!["import".into(), "--config".into(), cfg.to_string_lossy().into_owned(), src.to_string_lossy().into_owned()] });
+            desc.push_str(&format!("=== {} config\n{}", name, cfg_text));
+        }
+    }
     Some((jobs, desc))
 }
 
@@ -641,6 +696,9 @@ pub struct CamtDetail {
     pub charge: Option<Q>,
     /// the charge record is a credit (a fee rebate netted into the amount) instead of a debit
     pub charge_is_credit: bool,
+    /// how the charge is written: 1 = one record, 2 = two equal records, 3 = two unequal records,
+    /// 4 = one record next to a zero-amount record
+    pub charge_records: u8,
 }
 
 #[derive(Clone, Debug)]
@@ -649,7 +707,9 @@ pub struct CamtEntry {
     pub credit: bool,
     pub booking: NaiveDate,
     pub value: Option<NaiveDate>,
-    pub value_as_datetime: bool,
+    /// `Some(time+offset)`: the date is written as `<DtTm>DATE'T'time+offset</DtTm>` instead of `<Dt>`
+    pub value_time: Option<&'static str>,
+    pub booking_time: Option<&'static str>,
     pub domain: (&'static str, &'static str, &'static str),
     pub additional_info: String,
     pub details: Vec<CamtDetail>,
@@ -691,6 +751,10 @@ pub struct CamtCase {
 
 pub const PARTY_NAMES: &[&str] = &["Money Bank", "Herr Haus Okane und Frau Hause Okane", "OKANE VERSICHERUNGEN", "EURO GROCERY", "山田商店", "Taro Yamada", "Hanako Steinmann"];
 const DOMAINS: &[(&str, &str, &str)] = &[("PMNT", "RCDT", "OTHR"), ("PMNT", "ICDT", "AUTT"), ("PMNT", "RCDT", "SALA"), ("PMNT", "RDDT", "PMDD"), ("PMNT", "ICDT", "STDO"), ("PMNT", "RCDT", "DAJT")];
+
+/// Local times with UTC offsets, several of them on another calendar day in UTC: the date of a
+/// `<DtTm>` is the calendar day it states.
+const DATE_TIMES: &[&str] = &["10:30:00+02:00", "00:30:00+02:00", "23:45:00-05:00", "12:00:00Z", "00:00:00+01:00", "23:59:59-11:00", "00:10:00+13:00", "01:15:00.000+02:00"];
 
 fn money(q: Q) -> String {
     q_text(q)
@@ -744,6 +808,7 @@ impl CamtCase {
                     additional_info: if rng.chance(1, 2) { Some(rng.pick(texts).to_string()) } else { None },
                     charge,
                     charge_is_credit,
+                    charge_records: *rng.pick(&[1u8, 1, 1, 2, 3, 4]),
                 });
                 let d = details.last().unwrap();
                 total = total.add(d.signed()).unwrap();
@@ -760,7 +825,7 @@ impl CamtCase {
             } else {
                 (total.abs(), total.signum() > 0)
             };
-            let e = CamtEntry { amount, credit, booking: day, value, value_as_datetime: rng.chance(1, 5), domain: *rng.pick(DOMAINS), additional_info: rng.pick(texts).to_string(), details };
+            let e = CamtEntry { amount, credit, booking: day, value, value_time: if rng.chance(1, 4) { Some(*rng.pick(DATE_TIMES)) } else { None }, booking_time: if rng.chance(1, 6) { Some(*rng.pick(DATE_TIMES)) } else { None }, domain: *rng.pick(DOMAINS), additional_info: rng.pick(texts).to_string(), details };
             bal = bal.add(e.signed()).unwrap();
             entries.push(e);
         }
@@ -790,13 +855,13 @@ impl CamtCase {
         for e in &self.entries {
             x.push_str("      <Ntry>\n");
             x.push_str(&format!("        <Amt Ccy=\"{}\">{}</Amt>\n        <CdtDbtInd>{}</CdtDbtInd>\n        <Sts>BOOK</Sts>\n", c, money(e.amount), if e.credit { "CRDT" } else { "DBIT" }));
-            x.push_str(&format!("        <BookgDt><Dt>{}</Dt></BookgDt>\n", e.booking));
+            let date = |d: NaiveDate, time: Option<&str>| match time {
+                Some(t) => format!("<DtTm>{}T{}</DtTm>", d, t),
+                None => format!("<Dt>{}</Dt>", d),
+            };
+            x.push_str(&format!("        <BookgDt>{}</BookgDt>\n", date(e.booking, e.booking_time)));
             if let Some(v) = e.value {
-                if e.value_as_datetime {
-                    x.push_str(&format!("        <ValDt><DtTm>{}T10:30:00+02:00</DtTm></ValDt>\n", v));
-                } else {
-                    x.push_str(&format!("        <ValDt><Dt>{}</Dt></ValDt>\n", v));
-                }
+                x.push_str(&format!("        <ValDt>{}</ValDt>\n", date(v, e.value_time)));
             }
             x.push_str(&format!("        <BkTxCd><Domn><Cd>{}</Cd><Fmly><Cd>{}</Cd><SubFmlyCd>{}</SubFmlyCd></Fmly></Domn></BkTxCd>\n", e.domain.0, e.domain.1, e.domain.2));
             if !e.details.is_empty() {
@@ -822,7 +887,20 @@ impl CamtCase {
                     };
                     x.push_str(&format!("            <AmtDtls><InstdAmt><Amt Ccy=\"{}\">{}</Amt></InstdAmt><TxAmt><Amt Ccy=\"{}\">{}</Amt></TxAmt></AmtDtls>\n", c, money(tx_amt), c, money(tx_amt)));
                     if let Some(ch) = d.charge {
-                        x.push_str(&format!("            <Chrgs><Rcrd><Amt Ccy=\"{}\">{}</Amt><CdtDbtInd>{}</CdtDbtInd><ChrgInclInd>true</ChrgInclInd></Rcrd></Chrgs>\n", c, money(ch), if d.charge_is_credit { "CRDT" } else { "DBIT" }));
+                        let cent = Q::from_parts(1, 2).unwrap();
+                        let half = ch.div(Q::int(2)).unwrap();
+                        let even = half.mul(Q::int(100)).unwrap().d == 1;
+                        let parts: Vec<Q> = match d.charge_records {
+                            2 if even => vec![half, half],
+                            3 if ch.sub(cent).unwrap().signum() > 0 => vec![ch.sub(cent).unwrap(), cent],
+                            4 => vec![ch, Q::ZERO],
+                            _ => vec![ch],
+                        };
+                        x.push_str("            <Chrgs>");
+                        for part in parts {
+                            x.push_str(&format!("<Rcrd><Amt Ccy=\"{}\">{}</Amt><CdtDbtInd>{}</CdtDbtInd><ChrgInclInd>true</ChrgInclInd></Rcrd>", c, money(part), if d.charge_is_credit { "CRDT" } else { "DBIT" }));
+                        }
+                        x.push_str("</Chrgs>\n");
                     }
                     if d.creditor.is_some() || d.debtor.is_some() || d.ultimate_debtor.is_some() {
                         x.push_str("            <RltdPties>");
